@@ -251,8 +251,12 @@ __CPROVER_ensures(g_bcontent ==> (g_bk < user_key->size ==> lkey->kstart[g_bk] =
   if (in_un <= 300) { CANARY(); } \
 }
 H_LKEY_INIT(h_lkey_init, 0, VERIF_U32_MAX - 8, 0)
-H_LKEY_INIT(h_lkey_init_b, 0, 16, 1)       /* inline space */
-H_LKEY_INIT(h_lkey_init_h, 186, 190, 1)    /* both sides of the 200-byte threshold (u + 13 > 200 iff u >= 188) */
+/* concrete key lengths: empty, short, 2-byte length prefix (u + 8 >= 128), last inline (u + 13 == 200), first heap */
+H_LKEY_INIT(h_lkey_init_0, 0, 0, 1)
+H_LKEY_INIT(h_lkey_init_5, 5, 5, 1)
+H_LKEY_INIT(h_lkey_init_120, 120, 120, 1)
+H_LKEY_INIT(h_lkey_init_187, 187, 187, 1)
+H_LKEY_INIT(h_lkey_init_188, 188, 188, 1)
 
 /* ============================================================= lkey_clear */
 void c_lkey_clear(ldb_lkey_t *lkey)
